@@ -5,7 +5,7 @@
 (* the origin: cases are taken modulo translation, the harness transports  *)
 (* them), Next the second.  Every case is one phase-2 state.               *)
 (***************************************************************************)
-EXTENDS G3DUniv, TLC, Json
+EXTENDS G3DUniv, G3DAlg, TLC, Json
 
 CONSTANTS B,        \* lattice half-width
           KA, KB,   \* kinds of the first / second operand
@@ -31,6 +31,9 @@ Probes == { HP(p[1], p[2], p[3], 2) : p \in Box(2 * B) }
 ProbesAgree       == ph = 2 => \A P \in Probes : Mem(P, r) <=> (Mem(P, a) /\ Mem(P, b))
 Idempotent        == ph = 1 => SameSet(Inter(a, a), a)
 
+\* ---- L2 (the library's handlers as they are written) refines L1, never reaches the "Bug detected" branch, dispatch is total
+L2Refines == ph = 2 => (HasL2(a, b) => SameSet(L2(a, b), r))
+DispatchOK == DispatchTotal /\ DispatchSymmetric
 \* ---- case emission for the replayer
 Emit == ph = 1 \/ LET f == RelFlags(a, b, r)
                   IN (r.k = "None" /\ ~f[4] /\ ~InShard(b, a, SEED, NBORING))
